@@ -101,7 +101,9 @@ def harness(ck, prop, job):
         return None
     r = g.result
     for v in r['violations']:
-        if v['property'] == prop:
+        # a buffer still allocated after both ends closed the stream is C08's "after the release ... available again"
+        # and literally C09's statement
+        if v['property'] == prop or (prop == 'C09' and v['kind'].startswith('not-returned')):
             ck.violation('%s [%s]: %s | history %s' % (v['kind'], v['conf']['name'], v['detail'], ' '.join(v['history'])),
                          {'kind': 'history', 'conf': v['conf'], 'history': v['history'], 'edges_ops': v['history']})
         else:
@@ -110,8 +112,9 @@ def harness(ck, prop, job):
     return r
 
 
-def run(prop, tier, seed, replay=None):
-    ck = core.Check(prop, 'model_checking', tier, seed)
+def run(prop, tier, seed, replay=None, ck=None, finish=True):
+    ck = ck or core.Check(prop, 'model_checking', tier, seed)
+    fin = ck.finish if finish else (lambda: None)
     ck.assumptions += [
         'the spec is the API-level byte pipe; the slice structure is hidden state of the implementation, which is why '
         'EVERY path of the state graph up to the bound (not an edge cover) is replayed, under several slice-size '
@@ -151,7 +154,7 @@ def run(prop, tier, seed, replay=None):
         ck.cov['evaluations'] = 1
         ck.cov['distinct_nontrivial'] = 1
         harness(ck, prop, job)
-        return ck.finish()
+        return fin()
 
     if tier == 'quick':
         plan = [(['ab'], [1, 4, 5, 9], [0, 1, 3, 4, 5, 9], 14, 18, 5, ['one4', 'mix37', 'one4x2', 'one4x0'], 12)]
@@ -159,17 +162,19 @@ def run(prop, tier, seed, replay=None):
         plan = [(['ab'], [1, 4, 5, 9], [1, 3, 4, 5, 9], 14, 18, 5, ['one4', 'mix37', 'mix348', 'one4x2', 'one4x0', 'mix37x1', 'big'], 1),
                 (['ab'], [1, 3, 4, 8], [2, 4, 7, 8], 12, 16, 6, ['one4', 'mix37', 'one4x2'], 16),
                 (['ab', 'ba'], [4, 5], [1, 4, 5], 10, 10, 6, ['one4', 'mix37', 'one4x2'], 8)]
-    ck.cov['tlc_configs'] = []
+    ck.cov.setdefault('tlc_configs', [])
+    if prop == 'C09':
+        plan = [(d, w, r, mm, mt, mo, cf, st * 3) for (d, w, r, mm, mt, mo, cf, st) in plan[:1]]
     for (dirs, ws, rs, mm, mt, mo, confs, stride) in plan:
         ck.log('TLC: dirs %s, writer sizes %s, reader sizes %s, <= %d calls' % (dirs, ws, rs, mo))
         res, nodes, edges, inits = tlc.dump_graph('BytePipe', 'mc.cfg', timeout=1200,
                                                   extra_files={'mc.cfg': cfg(dirs, ws, rs, mm, mt, mo)})
         if res.violation:
             ck.inconc('TLC reports %s on the BytePipe specification itself' % res.violation)
-            return ck.finish()
+            return fin()
         if not res.ok or not edges:
             ck.inconc('TLC did not complete: %s' % (res.error or res.out[-400:]))
-            return ck.finish()
+            return fin()
         jedges, init = graph_job((nodes, edges, inits), dirs)
         npaths = count_paths(jedges, init)
         ck.add('states', res.distinct)
@@ -179,7 +184,7 @@ def run(prop, tier, seed, replay=None):
                'known_len': known_len, 'stride': stride, 'offset': off}
         r = harness(ck, prop, job)
         if r is None:
-            return ck.finish()
+            return fin()
         ck.add('traces_validated_against_impl', r['executions'] if not r['violations'] else 0)
         ck.add('histories_replayed', r['histories'])
         ck.add('executions_on_real_code', r['executions'])
@@ -199,4 +204,4 @@ def run(prop, tier, seed, replay=None):
         if ck.violations:
             break
     ck.cov['exhaustive'] = (tier == 'thorough')
-    return ck.finish()
+    return fin()
